@@ -190,14 +190,22 @@ def cases(draw):
         stmts.append(("print", V("x")))
     elif form == "map":
         g.label("map-literal")
-        n = g.int(1, 3)
-        keys = ["ka", "kb", "kc"][:n]
+        n = g.int(1, 4)
+        # keys: logging calls, or LITERALS written in an order that is not the sorted one (entries are evaluated in source order
+        # whatever their keys are), optionally with a repeated key (the later entry wins, both values are evaluated)
+        kk = g.choice(["call", "literal", "literal", "mixed"])
+        pool = ["width", "height", "depth", "zeta", "alpha", "m", "M", "k10", "k9"]
+        keys = [pool[g.int(0, len(pool) - 1)] for _ in range(n)] if kk != "call" else ["ka", "kb", "kc", "kd"][:n]
+        g.label("map-literal-keys:" + kk + (":unsorted" if keys != sorted(keys) else ":sorted") + (":repeated" if len(set(keys)) < len(keys) else ""))
         pairs = []
-        for kname in keys:
-            c.leaves += 1
-            pairs.append((("call", V("Ls"), [c.key(), S(kname)]), gen(c, "int", depth - 1, 1)))
+        for i_, kname in enumerate(keys):
+            if kk == "call" or (kk == "mixed" and i_ == 0):
+                c.leaves += 1
+                pairs.append((("call", V("Ls"), [c.key(), S(kname)]), gen(c, "int", depth - 1, 1)))
+            else:
+                pairs.append((S(kname), gen(c, "int", max(depth - 1, 1), 1)))
         stmts.append(("decl", "m", None, ("map", "str", "int", pairs), ()))
-        for kname in keys:
+        for kname in sorted(set(keys)):
             stmts.append(("print", ("index", V("m"), S(kname))))
         stmts.append(("print", ("mcall", V("m"), "len", [])))
     else:
